@@ -2,6 +2,7 @@
 import fnmatch
 import hashlib
 import json
+import re
 
 import core
 import cli
@@ -33,6 +34,48 @@ def pat_matches(pat, rel_from_ignore_dir, is_dir_chain):
             if is_dir and fnmatch.fnmatchcase(c, pat[:-1]):
                 return True
         elif fnmatch.fnmatchcase(c, pat):
+            return True
+    return False
+
+
+EXCLUDE_SETS = [["vendor/**", "*.txt"], ["vendor"], ["[Vv]endor"], ["third_part[y]", "buil[d]"], ["third_party/", "Vendor/pkg"],
+                ["[Vv]endor/**", "src/dee?"], ["third_party/*_dep"]]
+
+
+def glob_rx(pat):
+    """globset default semantics: '*' and '?' also match '/', classes, {a,b} alternation"""
+    out, i = "", 0
+    while i < len(pat):
+        c = pat[i]
+        if c == "*":
+            out += ".*"
+            while i + 1 < len(pat) and pat[i + 1] == "*":
+                i += 1
+        elif c == "?":
+            out += "."
+        elif c == "[":
+            j = pat.index("]", i)
+            out += "[" + pat[i + 1:j].replace("\\", "\\\\") + "]"
+            i = j
+        elif c == "{":
+            j = pat.index("}", i)
+            out += "(?:" + "|".join(re.escape(x) for x in pat[i + 1:j].split(",")) + ")"
+            i = j
+        else:
+            out += re.escape(c)
+        i += 1
+    return re.compile("^" + out + "$", re.S)
+
+
+def excluded_by(p, excludes):
+    """p or one of its ancestor directories is matched by an exclude glob"""
+    comps = p.split("/")
+    for x in excludes:
+        rx = glob_rx(x.rstrip("/"))
+        if rx.match(p):
+            return True
+        names_dir = x.endswith("/") or not any(ch in x for ch in "*?.")
+        if names_dir and any(rx.match("/".join(comps[:k])) for k in range(1, len(comps))):
             return True
     return False
 
@@ -82,6 +125,10 @@ def scenario(g, i):
         {"p": "src/gen/out_" + s + ".rs", "k": "f", "c": body, "m": 0o644},
         {"p": "build/" + s + "_artifact.txt", "k": "f", "c": body, "m": 0o644},
         {"p": "vendor/lib_" + s + ".c", "k": "f", "c": body, "m": 0o644},
+        {"p": "Vendor", "k": "d", "m": 0o755}, {"p": "Vendor/pkg", "k": "d", "m": 0o755},
+        {"p": "Vendor/pkg/" + s + "_types.rs", "k": "f", "c": body, "m": 0o644},
+        {"p": "third_party", "k": "d", "m": 0o755}, {"p": "third_party/" + s + "_dep", "k": "d", "m": 0o755},
+        {"p": "third_party/" + s + "_dep/" + s + ".h", "k": "f", "c": body, "m": 0o644},
         {"p": "secret.txt", "k": "f", "c": body, "m": 0o600},
         {"p": "bin_" + s + ".dat", "k": "f", "c": b"\x00\x01\x02" + body, "m": 0o644},
         {"p": ".hidden_" + s, "k": "f", "c": body, "m": 0o644},
@@ -134,8 +181,11 @@ def run(R):
                     uflag = ["-" + "u" * level] if level else []
                     includes, excludes, extra = [], [], []
                     if variant == "exclude":
-                        excludes = ["vendor/**", "*.txt"]
-                        extra = ["--exclude", ",".join(excludes)]
+                        # a pattern that names a directory (no '*', '?' or '.', or a trailing '/') also excludes everything below it
+                        excludes = EXCLUDE_SETS[(i + level) % len(EXCLUDE_SETS)]
+                        extra = []
+                        for x in excludes:
+                            extra += ["--exclude", x]
                     elif variant == "include":
                         includes = ["src/**"]
                         extra = ["--include", "src/**"]
@@ -171,7 +221,7 @@ def run(R):
                     if includes:
                         bad += [p for p in pp if not any(fnmatch.fnmatchcase(p, x.replace("**", "*")) for x in includes) and p not in bad]
                     if excludes:
-                        bad += [p for p in pp if any(fnmatch.fnmatchcase(p, x.replace("**", "*")) or fnmatch.fnmatchcase(p.rsplit("/", 1)[-1], x) for x in excludes) and p not in bad]
+                        bad += [p for p in pp if excluded_by(p, excludes) and p not in bad]
                     # binary below -uuu: no content hunks
                     if level < 3:
                         bad += [h["file"] for h in plan.get("matches", []) if h["file"].rsplit("/", 1)[-1].startswith("bin_") and h["file"] not in bad]
